@@ -529,6 +529,14 @@ func (c *Ctx) cmp(op Op, a, b *Term) *Term {
 	if a.S != b.S || a.S.K != KBV {
 		panic(fmt.Sprintf("smt: bv cmp sort mismatch %v vs %v", a.S, b.S))
 	}
+	// a <= b is kept as not(b < a): one canonical form, so that a comparison already decided
+	// on the path is recognised syntactically whichever way the program wrote it.
+	if op == OSLe {
+		return c.Not(c.cmp(OSLt, b, a))
+	}
+	if op == OULe {
+		return c.Not(c.cmp(OULt, b, a))
+	}
 	w := a.S.W
 	if a.IsConst() && b.IsConst() {
 		switch op {
